@@ -358,6 +358,9 @@ def check_C04(rep, prog, tier):
         [('F', [1]), ('FF', [1, 2]), ('FF', [1, 1]), ('FSF', [1, 0, 1]), ('FFF', [1, 2, 3]), ('FFF', [1, 2, 1])]
     cases = _bcases(shapes, ['fault'])
     cases += _bcases([('F', [1])] if tier == 'quick' else [('FF', [1, 2])], ['fault'], prior='same')
+    # a file that GREW since the previous version (same content class, solver-chosen sizes): its first block may be the block the
+    # previous version refers to, a later block is new - a failure while storing the later one must leave the shared one alone
+    cases += _bcases([('F', [1])], ['fault'], prior='built', prior_kinds='F', prior_classes=[1])
     rep.bounds = {'cases': [BC.case_name(c) for c in cases],
                   'faults': 'exactly one storage step k fails with one of NotFound/Other/PermissionDenied/AlreadyExists; k and kind solver-chosen'}
     rep.assumptions += BC.COMMON_ASSUMPTIONS + ['single fault per run (multi-fault sequences are outside the claim)']
